@@ -62,7 +62,7 @@ M_SEQ_TR = 'sequence:transmission:degenerate-k==xsec'
 M_SEQ_EM = 'sequence:emission:degenerate-k==xsec'
 M_PARTS = 'transmission:parts:degenerate-k==xsec'
 REQUIRED = dict(monitors=[M_TR, M_TRT, M_EM, M_EMCF, M_WEXP, M_RANGE, M_JENSEN, M_EMTAU, M_JDEPTH, M_EMK, M_SEQ_TR, M_SEQ_EM, M_PARTS],
-                classes=['parts:molecule-of-several', 'ktable-container:hdf5', 'ktable-container:pickle', 'sequence:pressure-moved-by:array-refilled-in-place', 'sequence:pressure-moved-by:fitting-parameters', 'sequence:add:Rayleigh', 'sequence:set', 'sequence:rebuild', 'sequence:fault', 'sequence:fault-fired', 'sequence:interpolation-mode-switched', 'family:transmission', 'family:emission', 'ngauss:1', 'ngauss:2-4', 'ngauss:5+',
+                classes=['parts:molecule-of-several', 'ktable-container:hdf5', 'ktable-container:pickle', 'sequence:pressure-moved-by:array-refilled-in-place', 'sequence:pressure-moved-by:fitting-parameters', 'sequence:add:Rayleigh', 'sequence:set', 'sequence:rebuild', 'sequence:fault', 'sequence:fault-fired', 'sequence:interpolation-mode-switched', 'grid:thousands-of-points', 'family:transmission', 'family:emission', 'ngauss:1', 'ngauss:2-4', 'ngauss:5+',
                          'weights:dirichlet', 'weights:gauss-legendre', 'weights:uniform',
                          'magnitude:transparent', 'magnitude:thin', 'magnitude:mixed', 'magnitude:saturating',
                          'molecules:1', 'molecules:2+', 'interp:linear', 'interp:exp', 'k:degenerate',
@@ -195,10 +195,16 @@ def draw_weights(rng, ng):
     return w / w.sum(), kind
 
 
-def make_case(rng):
+def make_case(rng, long=False):
     for _ in range(50):
-        spec = world.random_world_spec(rng, nlayers=int(rng.choice([2, 3, 5, 7, 13, 30])),
-                                       common_grid=bool(rng.random() < 0.7))
+        if long:
+            # a spectral grid of thousands of points (never a round number), few layers, one molecule: blocked loops
+            # over wavenumber have a last, partial block
+            spec = world.random_world_spec(rng, nlayers=int(rng.choice([2, 3, 5])), n_active=1,
+                                           nwn=int(10 ** rng.uniform(3.93, 4.2)) | 1)
+        else:
+            spec = world.random_world_spec(rng, nlayers=int(rng.choice([2, 3, 5, 7, 13, 30])),
+                                           common_grid=bool(rng.random() < 0.7))
         grids = [t['wn'] for t in spec['tables'].values()]
         spec['common_grid'] = all(len(g) == len(grids[0]) and np.array_equal(g, grids[0]) for g in grids)
         extra = []
@@ -211,7 +217,7 @@ def make_case(rng):
         spec['cia_seed'] = int(rng.integers(0, 2 ** 31))
         spec['new_method'] = bool(rng.random() < 0.4)
         spec['em_ngauss'] = int(rng.integers(1, 7))
-        ng = int([1, 2, 3, 4, 5, 8, 20][rng.integers(0, 7)])
+        ng = int([1, 2, 3, 4, 5, 8, 20][rng.integers(0, 4 if long else 7)])
         spec['ngauss'] = ng
         w, kind = draw_weights(rng, ng)
         spec['weights'] = {m: w for m in spec['tables']}
@@ -450,7 +456,10 @@ def near_early_exit(res):
 
 # ----------------------------------------------------------------- workloads
 def wl_degenerate(ctx, rng):
-    spec = make_case(rng)
+    long = ctx.case['index'] % 14 == 5
+    spec = make_case(rng, long=long)
+    if long:
+        ctx.observe('grid:thousands-of-points')
     ng = spec['ngauss']
     if len(spec['tables']) > 1 and rng.random() < 0.3:
         # degenerate k: the result may not depend on ANY of the weight vectors, also when they differ per molecule
@@ -640,6 +649,12 @@ def wl_sequence(ctx, rng):
             steps.append({'op': 'rebuild'})
         if rng.random() < 0.3:
             steps.append({'op': 'fault', 'site': faults.SITES[int(rng.integers(0, len(faults.SITES)))], 'k': int(rng.integers(1, 3))})
+    if ctx.case['index'] % 4 == 1 and spec['temperature']['kind'] != 'npoint':
+        # every fourth sequence: the layer pressures are the caller's own array and the pressure range moves at least once
+        spec['pressure_route'] = 'array'
+        if not any(st['op'] == 'pressure' for st in steps):
+            steps.insert(int(rng.integers(0, len(steps) + 1)),
+                         {'op': 'pressure', 'fmax': float(10 ** rng.uniform(-0.3, 0.3)), 'fmin': float(10 ** rng.uniform(-0.3, 0.3))})
     if not steps:
         steps.append({'op': 'rebuild'})
     if not any(st['op'] == 'add' for st in steps) and 'Rayleigh' not in have:
